@@ -77,10 +77,24 @@ def main(argv=None):
         print("HARNESS-ERROR: cannot load check for", pid)
         return 2
 
+    engine.CURRENT_PID[0] = pid
     if args.replay:
         data = engine.unjson(json.load(open(args.replay)))
         try:
-            verdict = mod.replay(data)
+            if isinstance(data.get("replay"), dict) and data["replay"].get("part") == "library-raises":
+                # the library raised inside the harness's scaffolding: there is no shorter history than the check's own
+                # set-up, so the quick tier is run again and the recorded signature looked for
+                rp = engine.Report()
+                try:
+                    mod.run("quick", int(os.environ.get("VERIF_SEED") or 0), rp)
+                    verdict = [(s_, v_["what"]) for s_, v_ in rp.violations.items() if s_ == data.get("signature")]
+                except Exception as e:  # noqa
+                    le = engine.library_exception(e)
+                    if le is None:
+                        raise
+                    verdict = [("%s/library-raises:%s:%s" % (pid, le[0], le[1]), "the library raised %s in %s (%s)" % le)]
+            else:
+                verdict = mod.replay(data)
         except Exception:
             traceback.print_exc()
             return 2
@@ -95,10 +109,20 @@ def main(argv=None):
     rep = engine.Report()
     try:
         info = mod.run(args.tier, seed, rep, only=args.only) if args.only else mod.run(args.tier, seed, rep)
-    except Exception:
-        traceback.print_exc()
-        print("HARNESS-ERROR: check for %s crashed (this is not a verdict)" % pid)
-        return 2
+    except Exception as e:
+        le = engine.library_exception(e)
+        if le is None:
+            traceback.print_exc()
+            print("HARNESS-ERROR: check for %s crashed (this is not a verdict)" % pid)
+            return 2
+        # the library itself raised while the check was building its scenario (documented-valid arguments): a verdict
+        tb = "".join(traceback.format_exception(type(e), e, e.__traceback__))[-1500:]
+        rep.violation("%s/library-raises:%s:%s" % (pid, le[0], le[1]),
+                      "the library raised %s(%s) in %s (%s) while the check was setting up its scenario with documented-valid arguments; "
+                      "the exploration was cut short" % (le[0], str(e)[:120], le[1], le[2]), {"part": "library-raises", "fn": "run", "traceback": tb})
+        rep.outcome("library-raises")
+        info = dict(level="model_checking", exhaustive=False, rule="exploration aborted: the library raised during set-up", min_outcomes=1)
+        rep.cap("exploration aborted by an exception of the library during set-up")
     wall = time.time() - t0
 
     known = load_known().get(pid, {})
